@@ -85,6 +85,28 @@ def random_runs(schema, rnd, tier):
     return runs
 
 
+def noschema_runs(schema, rnd, tier):
+    """populations loaded without any CREATE TABLE statement (every class is inferred from its first row), or with them but
+    in the same type-fixing value forms; the load is the last call of the run"""
+    runs = []
+    for k in range(24 if tier == 'quick' else 400):
+        rows = random_population(schema, rnd, rnd.randint(2, 12))
+        rnd.shuffle(rows)
+        modes = {c: rnd.random() < 0.35 for c in schema['classes']}
+        how = {'modes': modes, 'parts': [] if k % 3 else ['table']}
+        if not how['parts']:
+            how['infer'] = {c: 'named' if modes[c] else 'pos' for c in schema['classes']}
+        runs.append({'acts': [['LoadBuild', rows, how]]})
+    return runs
+
+
+def decorate_noschema(run, k, rnd):
+    for act in run['acts']:
+        if act[0] == 'LoadBuild':
+            act[2].update({'route': ROUTES[k % len(ROUTES)], 'order': ORDERS[(k // 4) % 3], 'chunks': 1 + (k // 12) % 3,
+                           'seed': rnd.randint(0, 10 ** 6)})
+
+
 def plans():
     obs = metagen.battery(['nav', 'nav', 'sel', 'chk_assoc', 'chk_id', 'consistent'], per_step=4)
     ps = []
@@ -96,6 +118,8 @@ def plans():
     for name in ('valued', 'keywords', 'assoc_reflexive', 'reflexive_1m', 'grid', 'phrase_ends', 'mixed_case'):
         ps.append({'name': name + '_random', 'schema': name, 'model': False, 'bound': 4, 'decorate': decorate,
                    'obs': obs, 'random': random_runs})
+    ps.append({'name': 'plain2_inferred', 'schema': 'plain2', 'model': False, 'bound': 4, 'decorate': decorate_noschema,
+               'random': noschema_runs})
     return ps
 
 
@@ -133,7 +157,9 @@ def check(tier, replay_path=None):
                    'invariant PermutationInvariant, action property LoadIsJoin',
         assumptions=[
             'referential and identifying attributes of an association have the same declared type',
-            'CREATE TABLE types are written in upper case; every class has an explicit CREATE TABLE statement',
+            'CREATE TABLE types are written in upper case; classes without CREATE TABLE statement (inferred from their first row: '
+            'MetaTrace!ExpAttrs) only in the plan plain2_inferred, where no association or identifier refers to them, values are '
+            'written in the lexical form that fixes their type and all rows of a class use one insert form',
             'directory/zip routes (bridgepoint loader) and creation through the API are separate plans',
         ], sig_extra=sig_extra)
 
